@@ -230,6 +230,7 @@ var c09DocClasses = []string{"vm-no-fragment", "vm-foreign-prefix", "vm-dup-id",
 	"rel-embedded-listed-same", "rel-embedded-listed-other-key", "rel-embedded-listed-other-controller", "rel-embedded-listed-other-type",
 	"rel-embedded-dup-same", "rel-embedded-dup-other-key", "rel-embedded-dup-other-controller", "rel-embedded-dup-other-type",
 	"vm-near-miss-id", "vm-near-miss-id", "vm-near-miss-id", "svc-near-miss-id", "svc-near-miss-id", "svc-near-miss-id",
+	"vm-frag-alias", "vm-frag-alias", "vm-frag-alias", "vm-frag-alias", "vm-frag-alias", "vm-frag-alias",
 	"core-no-context", "core-vm-no-type", "core-vm-no-controller", "core-svc-no-type", "core-svc-no-endpoint"}
 
 var c09Ops = []string{"create", "create", "create", "addkey", "addkey", "addkey", "rmkey", "rotate", "rotate", "rotate", "rotate",
@@ -677,6 +678,59 @@ func c09NearMiss(id, kind string) (didPart string, fragSuffix string) {
 	return id, ""
 }
 
+// c09FragAlias: other spellings of the key id fragment t = base64url-no-padding(SHA-256 JWK thumbprint). The method demands
+// the fragment to be exactly t; everything here is a different string (some of them decode to the same bytes under a lenient
+// base64 codec), so a verification method carrying it must be refused.
+var c09FragAliasKinds = []string{"lastbits-1", "lastbits-2", "lastbits-3", "padding", "stdalphabet", "pct", "case", "space-after", "newline-after",
+	"space-before", "truncated", "extended", "hex", "base64std", "lastbits-1", "lastbits-2", "lastbits-3", "padding"}
+
+func c09FragAlias(t, kind string, sel uint32) string {
+	const alphabet = "ABCDEFGHIJKLMNOPQRSTUVWXYZabcdefghijklmnopqrstuvwxyz0123456789-_"
+	raw, _ := base64.RawURLEncoding.DecodeString(t)
+	pos := int(sel/4) % len(t)
+	switch kind {
+	case "lastbits-1", "lastbits-2", "lastbits-3":
+		// the last character of 43 carries 4 data bits: the two low bits are free
+		i := strings.IndexByte(alphabet, t[len(t)-1])
+		return t[:len(t)-1] + string(alphabet[(i&^3)|int(kind[len(kind)-1]-'0')])
+	case "padding":
+		return t + "="
+	case "stdalphabet":
+		if strings.ContainsAny(t, "-_") {
+			return strings.NewReplacer("-", "+", "_", "/").Replace(t)
+		}
+		return t + "="
+	case "pct":
+		return t[:pos] + fmt.Sprintf("%%%02X", t[pos]) + t[pos+1:]
+	case "case":
+		for i := 0; i < len(t); i++ {
+			j := (pos + i) % len(t)
+			c := t[j]
+			if c >= 'a' && c <= 'z' {
+				return t[:j] + string(c-32) + t[j+1:]
+			}
+			if c >= 'A' && c <= 'Z' {
+				return t[:j] + string(c+32) + t[j+1:]
+			}
+		}
+	case "space-after":
+		return t + " "
+	case "newline-after":
+		return t + "\n"
+	case "space-before":
+		return " " + t
+	case "truncated":
+		return t[:len(t)-1]
+	case "extended":
+		return t + "A"
+	case "hex":
+		return fmt.Sprintf("%x", raw)
+	case "base64std":
+		return base64.StdEncoding.EncodeToString(raw)
+	}
+	return t + "="
+}
+
 // twistKind is set by twistDoc for classes that have several kinds (refines the class name and decides the verdict).
 func (w *c09World) twistDoc(doc map[string]any, id, other, class string, sel uint32) bool {
 	w.twistKind = ""
@@ -698,6 +752,43 @@ func (w *c09World) twistDoc(doc map[string]any, id, other, class string, sel uin
 		w.twistKind = c09NearMissKinds[int(sel)%len(c09NearMissKinds)]
 		dp, suffix := c09NearMiss(id, w.twistKind)
 		addVM(vm(dp+"#"+keys[k1].frag+suffix, k1))
+	case "vm-frag-alias":
+		w.twistKind = c09FragAliasKinds[int(sel)%len(c09FragAliasKinds)]
+		l := c09List(doc, "verificationMethod")
+		switch mode := (sel / 8) % 3; {
+		case mode == 1 && len(l) > 0:
+			// re-spell the id of a listed method (as a rotation / creation would introduce it), references follow
+			m := l[int(sel/2)%len(l)].(map[string]any)
+			old, _ := m["id"].(string)
+			frag := old[strings.Index(old, "#")+1:]
+			nid := id + "#" + c09FragAlias(frag, w.twistKind, sel)
+			m["id"] = nid
+			for _, r := range c09Rels {
+				for j, e := range c09List(doc, r.name) {
+					if e == old {
+						doc[r.name].([]any)[j] = nid
+					}
+				}
+			}
+			w.twistKind += "/respelled"
+		case mode == 2 && len(l) > 0:
+			// the same key listed twice: under its thumbprint and under another spelling of it
+			m := jsonmut.Clone(l[int(sel/2)%len(l)]).(map[string]any)
+			old, _ := m["id"].(string)
+			m["id"] = id + "#" + c09FragAlias(old[strings.Index(old, "#")+1:], w.twistKind, sel)
+			addVM(m)
+			if sel%2 == 0 {
+				doc[relName] = append(c09List(doc, relName), m["id"])
+			}
+			w.twistKind += "/listed-twice"
+		default:
+			// an added key (add-key) whose id is another spelling of its thumbprint
+			nid := id + "#" + c09FragAlias(keys[k1].frag, w.twistKind, sel)
+			addVM(vm(nid, k1))
+			if sel%2 == 0 {
+				doc[relName] = append(c09List(doc, relName), nid)
+			}
+		}
 	case "svc-near-miss-id":
 		w.twistKind = c09NearMissKinds[int(sel)%len(c09NearMissKinds)]
 		dp, suffix := c09NearMiss(id, w.twistKind)
@@ -1689,6 +1780,11 @@ func c09DocSig(class string) string {
 		return "" // the DID part of the id equals the document's DID: nothing demanded
 	case "vm-near-miss-id:frag2":
 		return "accepted-invalid-doc:vm-thumb-mismatch" // the fragment is not the thumbprint
+	}
+	if strings.HasPrefix(class, "vm-frag-alias:") {
+		return "accepted-invalid-doc:vm-thumb-mismatch:b64-alias" // the fragment is not exactly the thumbprint
+	}
+	switch class {
 	case "rel-embedded-valid", "rel-embedded-dup-same", "rel-embedded-listed-same":
 		return "" // well-formed: no refusal demanded
 	case "rel-embedded-listed-other-key", "rel-embedded-listed-other-controller", "rel-embedded-listed-other-type":
